@@ -82,4 +82,12 @@ MUTATIONS = [
 	M('c13-swallow-exception', ['C13'], 'src/gambit/sigs/calc.py', '\t\t\t\tsigs[i] = future.result()\n', '\t\t\t\ttry:\n\t\t\t\t\tsigs[i] = future.result()\n\t\t\t\texcept OSError:\n\t\t\t\t\tsigs[i] = np.empty(0, dtype=kspec.index_dtype)\n', 'unreadable files give an empty signature instead of an error'),
 	M('c13-shutdown-callers-executor', ['C13'], 'src/gambit/sigs/calc.py', '\t\texecutor_context = nullcontext()\n', '\t\texecutor_context = executor\n', 'caller-supplied executor shut down on exit'),
 	M('c13-index-by-completion-count', ['C13'], 'src/gambit/sigs/calc.py', '\t\t\t\ti = future_to_index[future]\n', '\t\t\t\ti = future_to_index[future]\n\t\t\t\tif len(files) == 6 and sigs[0] is None and i == 5:\n\t\t\t\t\tsigs[4], i = None, 4\n', 'only when the last of six files completes before the first: its result lands in slot 4 (later overwritten or not)'),
+	# ---- C19 ----------------------------------------------------------------------------------------
+	M('c19-flush-after-attrs', ['C19'], 'src/gambit/sigs/hdf5.py', "\t\tcls._init_attrs(group, signatures.kmerspec, meta)\n", "\t\tcls._init_attrs(group, signatures.kmerspec, meta)\n\t\tgroup.file.flush()\n", 'flush right after the attributes (marker on disk before any data): partial files still lack datasets -> refused', expect='silent'),
+	M('c19-flush-after-dataset-creation', ['C19'], 'src/gambit/sigs/hdf5.py', "\t\t\tvalues = group.create_dataset('values', shape=int(bounds[-1]), dtype=signatures.dtype, **values_kw)\n", "\t\t\tvalues = group.create_dataset('values', shape=int(bounds[-1]), dtype=signatures.dtype, **values_kw)\n\t\t\tgroup.file.flush()\n", 'flush after creating the values dataset: a kill during the per-signature loop leaves a loadable zero-filled file'),
+	M('c19-flush-every-100', ['C19'], 'src/gambit/sigs/hdf5.py', "\t\t\t\tvalues[bounds[i]:bounds[i + 1]] = signatures[i]\n", "\t\t\t\tvalues[bounds[i]:bounds[i + 1]] = signatures[i]\n\t\t\t\tif i % 100 == 99:\n\t\t\t\t\tgroup.file.flush()\n", 'periodic flush during the per-signature loop'),
+	dict(id='c19-marker-last', props=['C19', 'C12'], desc='good mutation: data flushed first, format marker written last -> must stay silent', expect='silent', edits=[
+		dict(file='src/gambit/sigs/hdf5.py', old="\t\tgroup.attrs[FMT_VERSION_ATTR] = CURRENT_FMT_VERSION\n\t\tgroup.attrs['kmerspec_k']", new="\t\tgroup.attrs['kmerspec_k']"),
+		dict(file='src/gambit/sigs/hdf5.py', old="\t\tcls._init_datasets(group, signatures, ids, values_kw=kw)\n", new="\t\tcls._init_datasets(group, signatures, ids, values_kw=kw)\n\t\tgroup.file.flush()\n\t\tgroup.attrs[FMT_VERSION_ATTR] = CURRENT_FMT_VERSION\n")]),
+	M('c19-cli-flush', ['C19'], 'src/gambit/sigs/hdf5.py', "\t\tgroup.create_dataset('ids', data=ids, dtype=ids_dtype)\n", "\t\tgroup.create_dataset('ids', data=ids, dtype=ids_dtype)\n\t\tif isinstance(signatures, SignatureArray) or len(signatures) > 7:\n\t\t\tpass\n\t\telse:\n\t\t\tgroup.create_dataset('values', shape=0, dtype=signatures.dtype); group.create_dataset('bounds', data=np.zeros(len(signatures) + 1, dtype=BOUNDS_DTYPE)); group.file.flush(); del group['values']; del group['bounds']\n", 'small list-backed collections: an all-empty placeholder is flushed first, then replaced'),
 ]
